@@ -103,6 +103,7 @@ pub fn run(env: &Env) {
     }
     env.ctx.set_rule("(a) commitments with M in {0,1,2} committed messages: ALL single-bit flips of the serialized commitment-with-proof, commitment point of run A with proof of run B, commitment made under the other suite, remove each m^, append a scalar, 1..=33 trailing octets, truncations => blind_sign must refuse; (b) blind signatures over (L,M) shapes: full message edit sets on signer and committed lists, moving a message between the lists, blinding factor in {None,0,blind+-1}, header, pk, all 640 signature bit flips, other suite, plain interface; (c) blind proofs: message/index edits on both lists, L in {L+-1,0,U+R-1,U+R,2^32,usize::MAX}, moving a disclosure between lists, ph, header, pk, proof bit flips, other suite, plain interface. Thorough: ordered pairs of structural edits. Unsorted/duplicated index lists: crash-only. State = edited statement; non-trivial = real verifier/signer ran and was compared with semantic + reference verdicts.");
     env.ctx.extra("deviation_bound_completed", json!(bound));
+    crate::hist::explore_families(env, &['B'], "blind interface histories");
     par_for(&roots, |_, r| {
         if !env.want(&r.id) || env.ctx.out_of_time() { return; }
         let zk = z(r.suite);
@@ -132,6 +133,7 @@ pub fn run(env: &Env) {
                 for bit in 0..640 { let cls = if bit < 384 { "sigflip-A" } else { "sigflip-e" }; ed_.push(ed(format!("sig flip bit {bit}"), cls, false, move |s: &Bs| Some(Bs { sig: flip(&s.sig, bit), ..s.clone() }))); }
                 ed_.push(ed("verify under the other ciphersuite".into(), "cross-suite", true, |s: &Bs| Some(Bs { suite: s.suite.other(), ..s.clone() })));
                 ed_.push(ed("verify through the plain interface (signer messages only)".into(), "cross-interface", false, |s: &Bs| { if s.plain_iface { return None; } Some(Bs { plain_iface: true, ..s.clone() }) }));
+                let base_ref_ok = std::cell::Cell::new(true);
                 let (_s, tr) = explore(&base, &ed_, bound, &|s| s.key(), &mut |v| {
                     env.ctx.state(&[r.id.as_bytes(), &v.state.key()]);
                     let sem = v.state.stmt_eq(&base);
@@ -139,7 +141,8 @@ pub fn run(env: &Env) {
                     let cls = if v.classes.is_empty() { "honest".to_string() } else { v.classes.join("+") };
                     expect(env, &r.id, &format!("verify_blind_sign after [{}]", v.path.join("; ")), &got, sem, &format!("blind-signature:{}", cls), json!({"base": det0, "edits": v.path}));
                     let rf = v.state.verify_ref();
-                    if rf.is_ok() != sem { env.machinery(&format!("C06 reference {:?} != semantic {} at {} [{}]", rf, sem, r.id, v.path.join("; "))); }
+                    if v.path.is_empty() && rf.is_err() { base_ref_ok.set(false); env.ctx.violation("C06:base-artefact:reference-rejects", &format!("the implementation's honest blind signature is rejected by the reference: {:?}", rf), env.case(&r.id, det0.clone())); }
+                    else if base_ref_ok.get() && rf.is_ok() != sem { env.machinery(&format!("C06 reference {:?} != semantic {} at {} [{}]", rf, sem, r.id, v.path.join("; "))); }
                     env.ctx.class(&format!("sig:{}:{}", if sem { "accept" } else { "reject" }, v.classes.first().copied().unwrap_or("honest")));
                     env.ctx.trace();
                 });
@@ -190,6 +193,7 @@ pub fn run(env: &Env) {
                     ed_.push(ed("verify through the plain interface".into(), "cross-interface", false, |s: &Bp| { if s.plain_iface { return None; } Some(Bp { plain_iface: true, ..s.clone() }) }));
                 }
                 let b = if flips.1 > 0 { 1 } else { bound };
+                let base_ref_ok = std::cell::Cell::new(true);
                 let (_s, tr) = explore(&base, &ed_, b, &|s| s.key(), &mut |v| {
                     env.ctx.state(&[r.id.as_bytes(), &v.state.key()]);
                     let got = v.state.verify_impl();
@@ -206,7 +210,8 @@ pub fn run(env: &Env) {
                     expect(env, &r.id, &format!("blind_proof_verify after [{}]", v.path.join("; ")), &got, sem, &format!("blind-proof:{}", cls), det);
                     let skip_ref = !env.thorough() && cls == "proofflip" && !got.is_ok();
                     let rf = if skip_ref { Err("skipped".into()) } else { v.state.verify_ref() };
-                    if rf.is_ok() != sem { env.machinery(&format!("C06 reference {:?} != semantic {} at {} [{}]", rf, sem, r.id, v.path.join("; "))); }
+                    if v.path.is_empty() && rf.is_err() { base_ref_ok.set(false); env.ctx.violation("C06:base-artefact:reference-rejects", &format!("the implementation's honest blind proof is rejected by the reference: {:?}", rf), env.case(&r.id, det0.clone())); }
+                    else if base_ref_ok.get() && !skip_ref && rf.is_ok() != sem { env.machinery(&format!("C06 reference {:?} != semantic {} at {} [{}]", rf, sem, r.id, v.path.join("; "))); }
                     env.ctx.class(&format!("proof:{}:{}", if sem { "accept" } else { "reject" }, v.classes.first().copied().unwrap_or("honest")));
                     env.ctx.trace();
                     if v.path.len() == 1 && v.path[0].starts_with("L :=") { env.ctx.sample(json!({"root": r.id, "edits": v.path, "verdict": got.kind()})); }
